@@ -160,9 +160,10 @@ def edge_values(rng, p, axis):
     if o == 0:
         # exact neighbours of the edge at 0: -tol, -tol +- few ulp, +tol ...
         vals += [-QTOL, -QTOL + u, -QTOL - u, QTOL, QTOL + u, QTOL - u, F(0), 3 * u, -3 * u,
-                 -QTOL + 3 * u, QTOL - 3 * u]
+                 -QTOL + 3 * u, QTOL - 3 * u, QTOL / 2, -QTOL / 2]
     else:
-        vals += [F(float(e) + TOL), F(float(e) - TOL), F(float(e) + 3 * TOL), F(float(e) - 3 * TOL)]
+        vals += [F(float(e) + TOL), F(float(e) - TOL), F(float(e) + 3 * TOL), F(float(e) - 3 * TOL),
+                 F(float(e) + TOL / 2), F(float(e) - TOL / 2)]
     v = rng.choice(vals)
     fv = float(v)
     return fv
